@@ -132,3 +132,72 @@ def model_check(ctx, name, consts, invs, must=('Store', 'W_Test', 'W_PassTop', '
   res = tlc.check_ok(tlc.run('Writer', cfg, ctx.scratch, coverage=True), name)
   ctx.add_tlc(name, res, must_cover=None if res.violated else must)
   return res
+
+
+# --- conformance of recorded executions to Writer.tla itself (trace validation with silent steps) ---
+def conformance(ctx, wm, sink, nworkloads, nrandom, limit, with_stop=True):
+  """Executions at lock/backend-call granularity (cache.store is then atomic for the writer, as the
+  Store action of Writer.tla is) are validated against Writer.tla by Writer_Trace.tla: every logged
+  event must be explained by the corresponding action, TLC fills in the writer's silent steps.
+  A rejected trace is reported as drift between code and model (the property verdict stays with
+  WriterLin, which judges the same traces through `sink`)."""
+  traces, origins = [], []
+
+  def both(tr, origin):
+    sink(tr, origin)
+    t2 = dict(tr)
+    t2['pre'] = [1]
+    t2['lag'] = 0
+    traces.append(t2)
+    origins.append(origin)
+  for lim, climit in (((None, None, None), 'FALSE'), ((60, None, None), 'TRUE')):
+    wm.configure(*lim)
+    first = len(traces)
+    for w in range(nworkloads):
+      st = cachesys.STRATEGIES[(w + ctx.seed) % len(cachesys.STRATEGIES)]
+      cfg = dict(strategy=st, lag=0, buckets=wm.buckets, coarse=True)
+      r_ops, _ = cachesys.gen_workload(ctx.rng, nmetrics=3, nts=2, nstores=ctx.rng.choice([3, 4, 5]), ndrains=0, nqueries=0)
+      faults = set() if w % 3 == 0 else set(ctx.rng.sample(range(8), ctx.rng.choice([1, 1, 2])))
+      ctx.evaluations += explore(ctx, wm, cfg, r_ops, faults, ('m1',), bound=2, nrandom=nrandom, limit=limit, sink=both)
+    chunk = traces[first:]
+    consts = dict(Metrics='{1,2,3}', Tss='{}', MaxStores=12, MaxFaults=9, CreateLimit=climit, LagConfigured='FALSE',
+                  PreExisting='{}', FinalPass='TRUE', WithStop='TRUE')
+    cfgt = tlc.cfg_text(spec='TSpec', constants=consts, constraints=['Report'])
+    res, done, _ = tlc.validate_batch('Writer_Trace', cfgt, ctx.scratch, chunk, workers=8)
+    tlc.check_ok(res, 'Writer_Trace validation')
+    ctx.states += res.distinct
+    ctx.transitions += res.generated
+    rej = [i for i in range(1, len(chunk) + 1) if i not in done]
+    ctx.cov['writer_tla_traces_validated'] = ctx.cov.get('writer_tla_traces_validated', 0) + len(chunk)
+    ctx.cov['writer_tla_traces_accepted'] = ctx.cov.get('writer_tla_traces_accepted', 0) + len(chunk) - len(rej)
+    cfgp = tlc.cfg_text(spec='TSpec', constants=consts, constraints=['Progress'])
+    for i in rej[:3]:
+      r2, _, _ = tlc.validate_batch('Writer_Trace', cfgp, ctx.scratch, [chunk[i - 1]], workers=1)
+      ats = [v[2] for v in tlc.extract_prints(r2.out, 'AT')]
+      far = max(ats) if ats else 0
+      evs = chunk[i - 1]['ev']
+      ctx.note_drift('execution not explained by Writer.tla: no action matches event %d %s (origin %s)' % (
+        far, {k: v for k, v in evs[far - 1].items() if k not in ('now', 'idx')} if 0 < far <= len(evs) else '?',
+        {k: v for k, v in origins[first + i - 1].items() if k in ('kind', 'forced', 'rseed', 'faults')}))
+    if len(rej) > 3:
+      ctx.note_drift('%d more executions not explained by Writer.tla' % (len(rej) - 3))
+    # binding demonstration: a corrupted recorded field / a removed event must be rejected
+    good = next((t for k, t in enumerate(chunk, 1) if k in done and any(e['k'] == 'db' and e['op'] == 'write' and e['ok'] for e in t['ev'])), None)
+    if good is None:
+      if rej:
+        continue
+      raise Machinery('no accepted trace with a successful write for the Writer_Trace negative control')
+    a = copy.deepcopy(good)
+    j = next(k for k, e in enumerate(a['ev']) if e['k'] == 'db' and e['op'] == 'write' and e['ok'])
+    a['ev'][j]['pts'] = a['ev'][j]['pts'] + [[999, 999]]
+    b = copy.deepcopy(good)
+    b['ev'] = [e for k, e in enumerate(b['ev']) if not (e['k'] == 'drained' and e['m'] != 0)][:]
+    c = copy.deepcopy(good)
+    j = next(k for k, e in enumerate(c['ev']) if e['k'] == 'db' and e['op'] == 'exists' and e['ok'])
+    c['ev'][j]['res'] = 1 - c['ev'][j]['res']
+    res, done2, _ = tlc.validate_batch('Writer_Trace', cfgt, ctx.scratch, [a, b, c], workers=1)
+    tlc.check_ok(res, 'Writer_Trace negative controls')
+    ctx.negative_control('Writer_Trace: written points altered', 1 not in done2)
+    ctx.negative_control('Writer_Trace: drain events removed', 2 not in done2)
+    ctx.negative_control('Writer_Trace: exists() result flipped', 3 not in done2)
+  wm.configure(None, None, None)
